@@ -90,6 +90,69 @@ def family(ctx, tables, per_group, groups=range(1, 231), max_atoms=120):
     return cases, disc
 
 
+def std_cell_family(ctx, tables, n, max_atoms=120):
+    """inputs that ARE the standardized conventional cell (identity transformation, zero origin shift) of a crystal in
+    which one species occupies several Wyckoff positions, with the atoms in another order than spglib's: any shortcut
+    that carries per-atom data of the input over to the conventional cell by position in the list shows here.
+    Centred lattices (conventional cell = several primitive cells) are drawn twice as often."""
+    import numpy as np
+    import spglib
+    rng = ctx.rng
+    out, disc = [], 0
+    groups = list(range(1, 231))
+    centred = [sg for sg in groups if len(tables[1][sg]["translations"]) > 0]
+    tries = 0
+    while len(out) < n and tries < 6 * n:
+        tries += 1
+        sg = rng.choice(centred) if rng.random() < 0.66 else rng.choice(groups)
+        lets = K.table_letters(tables, sg)
+        mult = {l: m for l, m, nf in lets}
+        k = rng.choice([2, 2, 3])
+        pick, total = [], 0
+        for l in rng.sample(list(mult), min(len(mult), 6)):
+            if len(pick) < k and total + mult[l] <= max_atoms:
+                pick.append(l)
+                total += mult[l]
+        if len(pick) < 2:
+            continue
+        z = rng.choice(K.SPECIES)
+        zs = [z] * len(pick)
+        if rng.random() < 0.3:
+            zs[-1] = rng.choice([x for x in K.SPECIES if x != z])
+        cr = K.make_crystal(sg, rng, list(zip(pick, zs)), tables)
+        if cr is None or K.stable_group(cr) != sg:
+            disc += 1
+            continue
+        ds = K.spg_dataset(cr, TOL)
+        L = np.array(K.ds_get(ds, "std_lattice"))
+        P = np.array(K.ds_get(ds, "std_positions"))
+        Z = [int(x) for x in K.ds_get(ds, "std_types")]
+        # another order of the atoms that keeps the species sequence of the standardized cell
+        order = list(range(len(Z)))
+        for zz in set(Z):
+            idx = [i for i in order if Z[i] == zz]
+            sh = list(idx)
+            rng.shuffle(sh)
+            for a, b in zip(idx, sh):
+                order[a] = b
+        std = {"sg": sg, "cell": L.tolist(), "scaled_positions": P[order].tolist(), "numbers": [Z[i] for i in order]}
+        if K.stable_group(std) != sg:
+            disc += 1
+            continue
+        out.append({"crystal": slim(std), "tol": TOL, "sg": sg, "variant": "standardized-cell-reordered-within-species", "base": None,
+                    "orbits": pick})
+    return out, disc
+
+
+def targeted_family(ctx, build):
+    """crystals aimed at a normalizer whose table clauses no longer check (see _c0506.targeted_cases)"""
+    from props import _c0506 as H
+    tc, summ = H.targeted_cases(build, ctx.rng)
+    ctx.coverage["targeted_search"] = summ
+    return [{"crystal": slim(c["crystal"]), "tol": TOL, "sg": c["sg"], "variant": "targeted:" + json.dumps(c["pres"], default=str)[:120],
+             "base": None, "orbits": []} for c in tc]
+
+
 def off_family(ctx, n):
     """structures outside the curated family: random triclinic cells with 1-12 random atoms (usually P1 / P-1, every
     atom its own orbit) and rattled family crystals -- the model must agree on whatever dataset spglib returns"""
@@ -379,6 +442,11 @@ def run(ctx):
     cases = load_corpus("C07")
     fam, disc = family(ctx, build["tables"], per_group)
     cases += fam
+    sfam, d2 = std_cell_family(ctx, build["tables"], 40 if ctx.tier == "quick" else 400)
+    disc += d2
+    cases += sfam
+    if not build["ok"]:
+        cases = targeted_family(ctx, build) + cases
     cases += off_family(ctx, 30 if ctx.tier == "quick" else 300)
     rows, nviol = correspond(ctx, "C07", cases, c07_term, c07_failures, nontrivial_c07, build, broken)
     ctx.coverage["input_distribution"]["discarded_unstable_or_higher_symmetry"] = disc
